@@ -66,7 +66,7 @@ def _alias_of(e, P, defs, depth=0):
     the caller's array), 'copy' when it can be a fresh array (stores are lost), None when `e` does not derive from P."""
     import ast
     from .srcmodel import unparse, dotted
-    if depth > 8:
+    if depth > 40:
         return 'copy'
     if not any(isinstance(x, ast.Name) and (x.id == P or x.id in defs) for x in ast.walk(e)):
         return None
